@@ -297,6 +297,10 @@ fn root_sets() -> Vec<Vec<C>> {
         // is reached far from the root (a stopping rule that looks at |p(x)| instead of the update stops there)
         (0..8).map(|k| c(-0.875 + 0.25 * k as f64, 0.0)).collect(),
         (0..6).map(|k| c(0.1 + 0.3 * k as f64, 0.2 - 0.1 * k as f64)).collect(),
+        // roots on the imaginary axis that are NOT closed under conjugation: the expanded polynomial has purely imaginary
+        // coefficients (x^2 - 3i x - 2; x^3 - 2i x^2 + x - 2i) - a coefficient judged by its real part alone vanishes
+        vec![c(0.0, 1.0), c(0.0, 2.0)],
+        vec![c(0.0, 1.0), c(0.0, -1.0), c(0.0, 2.0)],
     ]
 }
 /// ascending coefficients of lead * prod (x - z_j)
@@ -329,7 +333,7 @@ impl Check for PolyNewton {
         "polynomial-newton-muller"
     }
     fn rule(&self) -> String {
-        "polynomials of degree 1-8 expanded from 14 separated real/complex root sets (two with a root close to the origin, started from the origin itself); newton_polynomial (real field for real roots of real polynomials, complex field otherwise) from starts at distance frac * sep/(2 deg) of each root in 4 directions (frac = 0: exactly on the root), muller_polynomial from horizontal, vertical and skew triples around the start; 3 tolerances; signature = (method, field, outcome, set)".into()
+        "polynomials of degree 1-8 expanded from separated real/complex root sets (two with a root close to the origin, started from the origin itself; two on the imaginary axis giving purely imaginary coefficients); newton_polynomial (real field for real roots of real polynomials, complex field otherwise) from starts at distance frac * sep/(2 deg) of each root in 4 directions (frac = 0: exactly on the root), muller_polynomial from horizontal, vertical and skew triples around the start; 3 tolerances; signature = (method, field, outcome, set)".into()
     }
     fn points(&self, t: Tier) -> Vec<PolyPt> {
         let mut v = vec![];
